@@ -245,6 +245,20 @@ def c03(ck):
                 parts = ["\n".join(s1), "\n".join(s2)]
                 parts.insert(pos, us)
                 check("unsupported-inserted", (uk, k1, k2, pos), [k1, k2], "\n".join(parts))
+    # an earlier statement that names the same table (DROP TABLE t; / an older CREATE TABLE t) does not capture the
+    # ALTER / INDEX that follows the later definition: [earlier] + (CREATE; ALTER) == earlier alone + (CREATE; ALTER) alone
+    for gk, gs in S.GROUPS.items():
+        tname = gs[0].split()[2]
+        for ek, earlier in (("drop", "DROP TABLE %s;" % tname), ("older-create", "CREATE TABLE %s (\n    legacy_col int\n);" % tname)):
+            e0, g0 = parse(earlier), parse("\n".join(gs))
+            if e0[0] != "ok" or g0[0] != "ok":
+                continue
+            r = parse(earlier + "\n" + "\n".join(gs))
+            exp = entities(e0[1])[0] + entities(g0[1])[0]
+            if r[0] != "ok" or jdump(entities(r[1])[0]) != jdump(exp):
+                ck.fail("same-table-named-earlier", (gk, ek), "c03:earlier-statement-captures-alter-or-index", dict(ddl=earlier + "\n" + "\n".join(gs), observed=r, expected=exp))
+            else:
+                ck.ok("same-table-named-earlier", (gk, ek))
     # corpus statements next to generated ones
     cp = [d for _, d in corpus() if d.strip().endswith(";")]
     for i, d in enumerate(cp if not ck.quick() else cp[::3]):
